@@ -24,6 +24,8 @@ import (
 // result does not fit; shift counts ≥256 give 0).
 
 const (
+	sigBelow       = "an opcode changed stack items below its operands (its operands share memory with other items)"
+	sigGlobalTrue  = "global:true-bytes-corrupted"
 	sigMultisigRef = "CHECKMULTISIG does not compute the order-preserving injection of signatures into public keys"
 	sigChecksigRef = "CHECKSIG does not return the Ed25519 verdict"
 	sigLshift = "LSHIFT drops the bits shifted out of the 256-bit word instead of failing with ErrRange"
@@ -805,6 +807,151 @@ func (g *c08gen) multisigFamily(c *Ctx) {
 	}
 }
 
+// arity of the data opcodes that pop k items and push one result
+var c08arity = map[string]int{"OR": 2, "XOR": 2, "AND": 2, "EQUAL": 2, "CAT": 2, "CATPUSHDATA": 2, "ADD": 2, "SUB": 2, "MUL": 2,
+	"DIV": 2, "MOD": 2, "LSHIFT": 2, "RSHIFT": 2, "BOOLAND": 2, "BOOLOR": 2, "NUMEQUAL": 2, "NUMNOTEQUAL": 2, "LESSTHAN": 2,
+	"GREATERTHAN": 2, "LESSTHANOREQUAL": 2, "GREATERTHANOREQUAL": 2, "MIN": 2, "MAX": 2, "LEFT": 2, "RIGHT": 2,
+	"INVERT": 1, "1ADD": 1, "1SUB": 1, "2MUL": 1, "2DIV": 1, "NOT": 1, "0NOTEQUAL": 1, "SHA256": 1, "SHA3": 1, "HASH160": 1,
+	"SUBSTR": 3, "WITHIN": 3}
+
+// c08probe: process-global state.  `1 1 NUMEQUAL  0 NOT  1 1 EQUAL` must leave three items 01 —
+// BoolBytes(true) hands out one shared slice, so an opcode that writes into an operand in place
+// corrupts every later "true" of the process.  The stream keeps running in the same process.
+var c08probeCase = &vmCase{vmVersion: 1, limit: 10000, code: []byte{0x51, 0x51, 0x9c, 0x00, 0x91, 0x51, 0x51, 0x87}, entryID: make([]byte, 32)}
+
+func c08probe(c *Ctx, after string) {
+	res := runVMCase(c08probeCase)
+	ok := res.class == "ok" && len(res.sink.lastDump) == 3
+	if ok {
+		for _, it := range res.sink.lastDump {
+			if !bytes.Equal(it, []byte{1}) {
+				ok = false
+			}
+		}
+	}
+	if !ok {
+		failCapped(c, sigGlobalTrue, fmt.Sprintf("after %s: `1 1 NUMEQUAL 0 NOT 1 1 EQUAL` gives %s [%s]", after, res.class, hxList(res.sink.lastDump)))
+	}
+}
+
+// aliasProgram: operands produced by DUP / OVER / PICK / TUCK / 2DUP / alt-stack round trips /
+// boolean-producing opcodes, then consumed by the binary and unary data opcodes.
+func (g *c08gen) aliasProgram() *vmCase {
+	r := g.c.Rng
+	k := &vmCase{vmVersion: 1, limit: 100000, entryID: make([]byte, 32), txVersion: u64p(1)}
+	val := func() []byte {
+		switch r.Intn(4) {
+		case 0:
+			return leBytes(big.NewInt(int64(r.Intn(70000))))
+		case 1:
+			b := make([]byte, 1+r.Intn(4))
+			r.Read(b)
+			b[len(b)-1] &= 0x7f
+			return b
+		}
+		b := make([]byte, 1+r.Intn(8))
+		r.Read(b)
+		return b
+	}
+	push := func(b []byte) []byte { return vm.PushDataBytes(b) }
+	var code []byte
+	rounds := 1 + r.Intn(3)
+	for i := 0; i < rounds; i++ {
+		switch r.Intn(14) {
+		case 0:
+			code = append(code, push(val())...)
+			code = append(code, 0x76) // x DUP
+		case 1:
+			code = append(append(code, push(val())...), push(val())...)
+			code = append(code, 0x78) // x y OVER
+		case 2:
+			code = append(append(code, push(val())...), push(val())...)
+			code = append(code, 0x7d) // x y TUCK
+		case 3:
+			code = append(append(code, push(val())...), push(val())...)
+			code = append(code, 0x6e) // x y 2DUP
+		case 4:
+			code = append(append(code, push(val())...), push(val())...)
+			code = append(code, 0x51, 0x79) // x y 1 PICK
+		case 5:
+			code = append(code, push(val())...)
+			code = append(code, 0x76, 0x6b) // x DUP TOALTSTACK … FROMALTSTACK
+			code = append(code, push(val())...)
+			code = append(code, 0x75, 0x6c)
+		case 6:
+			n := int64(r.Intn(9))
+			code = append(append(code, num(n)...), num(n)...)
+			code = append(code, 0x9c) // n n NUMEQUAL → true
+		case 7:
+			v := val()
+			code = append(append(code, push(v)...), push(v)...)
+			code = append(code, 0x87) // v v EQUAL → true
+		case 8:
+			code = append(append(code, num(int64(r.Intn(5)))...), num(int64(5+r.Intn(5)))...)
+			code = append(code, []byte{0x9f, 0xa1, 0x9e}[r.Intn(3)]) // LESSTHAN / LESSTHANOREQUAL / NUMNOTEQUAL → true
+		case 9:
+			code = append(code, 0x00, 0x91) // 0 NOT → true
+		case 10:
+			code = append(code, num(int64(1+r.Intn(9)))...)
+			code = append(code, 0x92) // n 0NOTEQUAL → true
+		case 11:
+			code = append(append(append(code, num(3)...), num(1)...), num(7)...)
+			code = append(code, 0xa5) // 3 1 7 WITHIN → true
+		case 12: // CHECKSIG true / false
+			key := g.keys[r.Intn(len(g.keys))]
+			msg := g.msgs[r.Intn(len(g.msgs))]
+			sg := ed25519.Sign(key.priv, msg)
+			if r.Intn(3) == 0 {
+				sg[5] ^= 1
+			}
+			code = append(append(append(code, push(sg)...), push(msg)...), push(key.pub)...)
+			code = append(code, 0xac)
+		default:
+			code = append(code, 0x51, 0x51, 0x9a) // 1 1 BOOLAND → true
+		}
+		// consumer
+		bin := []byte{0x85, 0x86, 0x84, 0x7e, 0x89, 0x93, 0x94, 0x95, 0x98, 0x99, 0xa3, 0xa4, 0x9b, 0x87, 0x85, 0x86}
+		un := []byte{0x83, 0x8b, 0x8c, 0x8d, 0x8e, 0x91, 0xa8}
+		switch r.Intn(6) {
+		case 0:
+			code = append(code, un[r.Intn(len(un))])
+		case 1:
+			code = append(code, num(int64(r.Intn(3)))...)
+			code = append(code, []byte{0x80, 0x81}[r.Intn(2)]) // LEFT RIGHT
+		case 2:
+			code = append(append(code, num(0)...), num(int64(r.Intn(2)))...)
+			code = append(code, 0x7f) // SUBSTR
+		default:
+			if r.Intn(3) != 0 {
+				v := val()
+				if r.Intn(2) == 0 {
+					v = v[:1]
+				}
+				code = append(code, push(v)...)
+			}
+			code = append(code, bin[r.Intn(len(bin))])
+		}
+	}
+	k.code = code
+	if bytes.IndexByte(code, 0xac) >= 0 {
+		k.fillSigs()
+	}
+	return k
+}
+
+func c08alias(c *Ctx, k *vmCase) {
+	res := runVMContext(k.context(), k.limit, true)
+	line := k.line()
+	c.Op(line, res.line)
+	c.Distinct(line)
+	c.Count("mode/alias")
+	c.Count("class/" + res.class)
+	if bad := stackBelowCheck(res.sink.keep.String(), k.args, c08arity); bad != "" {
+		failCapped(c, sigBelow, fmt.Sprintf("code=%x: %s", k.code, bad))
+	}
+	c08probe(c, fmt.Sprintf("code=%x", k.code))
+}
+
 func c08one(c *Ctx, op byte, mode string, k *vmCase) {
 	res := runVMCase(k)
 	line := k.line()
@@ -824,10 +971,11 @@ func c08one(c *Ctx, op byte, mode string, k *vmCase) {
 	c.Distinct(line)
 	c08oracle(c, op, k, res)
 	c08sigOracle(c, op, k, res)
+	c08probe(c, fmt.Sprintf("code=%x args=%s", k.code, hxList(k.args)))
 }
 
 func runC08(c *Ctx) {
-	c.Rule = "for each of the 256 opcode bytes: programs `[pushes] OP [immediate bytes]` on stacks that are empty, one operand short, shaped for the opcode (numbers from the boundary set 0,1,2^31..2^255±1,2^256-1, non-minimal zeros, 33-byte values; byte strings of 0..40/64/75/76 bytes; real Ed25519 keys, messages and (sometimes corrupted) signatures; predicates; CHECKMULTISIG layouts) or random (1..8 items), with the stack passed as arguments or built by pushes, gas limits 0..300, ..3000, 100000 and MaxGasAmount, with full / partial / absent transaction context; numeric opcodes additionally on the full boundary×boundary grid; CHECKMULTISIG with n <= 3 (4 in the thorough tier) keys, optionally one key listed twice, and EVERY m-tuple (m <= n) of signers drawn from the listed keys and one non-listed key (repeated signatures, wrong order, all subsets), CHECKSIG on every signer x key pair, with real Ed25519 signatures; a case is distinct by its whole op line"
+	c.Rule = "for each of the 256 opcode bytes: programs `[pushes] OP [immediate bytes]` on stacks that are empty, one operand short, shaped for the opcode (numbers from the boundary set 0,1,2^31..2^255±1,2^256-1, non-minimal zeros, 33-byte values; byte strings of 0..40/64/75/76 bytes; real Ed25519 keys, messages and (sometimes corrupted) signatures; predicates; CHECKMULTISIG layouts) or random (1..8 items), with the stack passed as arguments or built by pushes, gas limits 0..300, ..3000, 100000 and MaxGasAmount, with full / partial / absent transaction context; numeric opcodes additionally on the full boundary×boundary grid; short multi-opcode programs (1..3 rounds) whose operands are produced by DUP / OVER / TUCK / 2DUP / PICK / an alt-stack round trip / boolean-producing opcodes (NUMEQUAL, EQUAL, LESSTHAN…, NOT, 0NOTEQUAL, WITHIN, BOOLAND, CHECKSIG true and false) and consumed by OR, XOR, AND, INVERT, CAT, CATPUSHDATA, SUBSTR, LEFT, RIGHT, arithmetic, shifts, hashes, with the whole stack after every instruction compared and a process-global probe (`1 1 NUMEQUAL 0 NOT 1 1 EQUAL` must give 01 01 01) after every case of the stream; CHECKMULTISIG with n <= 3 (4 in the thorough tier) keys, optionally one key listed twice, and EVERY m-tuple (m <= n) of signers drawn from the listed keys and one non-listed key (repeated signatures, wrong order, all subsets), CHECKSIG on every signer x key pair, with real Ed25519 signatures; a case is distinct by its whole op line"
 	g := &c08gen{c: c, keys: vmKeys(4), bnd: vmBoundaryNumbers()}
 	for i := 0; i < 2; i++ {
 		m := bytes.Repeat([]byte{byte(0xa0 + i)}, 32)
@@ -848,6 +996,10 @@ func runC08(c *Ctx) {
 			if len(k.args) > 0 {
 				op = k.code[0]
 			}
+		}
+		if len(k.args) == 0 && len(k.code) > 1 {
+			c08alias(c, k) // a multi-opcode program: whole-stack comparison + below-operands oracle
+			continue
 		}
 		c08one(c, op, "corpus", k)
 	}
@@ -897,6 +1049,14 @@ func runC08(c *Ctx) {
 				c08one(c, op, "grid", k)
 			}
 		}
+	}
+	// operands that alias other items / the process-wide true constant
+	for _, l := range []string{"02" + "0f0f" + "76" + "01f0" + "85", "55559c52855151" + "9c", "0151" + "76" + "83", "02aabb76" + "01cc" + "86"} {
+		code, _ := unhx(l)
+		c08alias(c, &vmCase{vmVersion: 1, limit: 100000, code: code, entryID: make([]byte, 32), txVersion: u64p(1)})
+	}
+	for i := 0; i < c.N*25; i++ {
+		c08alias(c, g.aliasProgram())
 	}
 	// CHECKSIG / CHECKMULTISIG semantics against real Ed25519 verdicts
 	g.multisigFamily(c)
